@@ -74,6 +74,13 @@ func worldLoader(log *[]string) func(string) (json.RawMessage, error) {
 	return func(u string) (json.RawMessage, error) {
 		*log = append(*log, u)
 		base := u[strings.LastIndex(u, "/")+1:]
+		// documents published on the hosts of the built-in meta-schemas, at other paths: ordinary documents
+		switch u {
+		case "http://json-schema.org/draft-07/schema":
+			return json.RawMessage(sessDoc("d2", sessWorld["d2"])), nil
+		case "http://swagger.io/v3/schema.json":
+			return json.RawMessage(sessDoc("d3", sessWorld["d3"])), nil
+		}
 		// the world has documents next to the RelativeBase location and in the CURRENT working directory only
 		if dir := strings.TrimSuffix(u, "/"+base); dir != "file:///w/r" && dir != "file://"+sessDirs[sessDir] {
 			return nil, errors.New("world: no document " + u + " (the working directory is " + sessDirs[sessDir] + ")")
@@ -238,6 +245,12 @@ func sessCall(st sessStep) (so sessStepObs) {
 		err = spec.ExpandSchemaWithBasePath(&s, nil, sessOptsNoBase)
 		out, _ = json.Marshal(s)
 		so.Opts = sessOptsNoBase.RelativeBase == "" && !sessOptsNoBase.SkipSchemas && !sessOptsNoBase.ContinueOnError && sessOptsNoBase.PathLoader != nil
+	case "metahost":
+		var s spec.Schema
+		_ = json.Unmarshal([]byte(`{"type":"object","properties":{"a":{"$ref":"http://json-schema.org/draft-07/schema#/definitions/T"},"b":{"$ref":"http://swagger.io/v3/schema.json#/definitions/T"}}}`), &s)
+		err = spec.ExpandSchemaWithBasePath(&s, nil, opts)
+		out, _ = json.Marshal(s)
+		so.Opts = opts.RelativeBase == sessBase && opts.PathLoader != nil
 	case "metaref":
 		// a schema that refers to a whole built-in meta-schema document
 		var s spec.Schema
